@@ -23,30 +23,27 @@ Vocabulary (Model/Cache.lean, Proofs/Cache*.lean):
   `Sim`                cache and direct application side by side: a mutating call is applied directly exactly when
                        it succeeded through the cache ("the same successful operations")
   `directRun r ops`    every call applied directly;  `allDirectOk r ops`: each of them succeeds
-  `writeClass`         the calls of the class of the `_partial` theorems: WriteFile / Writer / MkdirAll through an
-                       ok handle, a WriteFile path (as the cache receives it) ending in a real name
+  `writeClass`         the calls of the class of the `_partial` theorems: WriteFile / Writer / MkdirAll / CopyFile
+                       through an ok handle, a WriteFile path (as the cache receives it) ending in a real name
+                       (a CopyFile that succeeds directly copies a file to an absent destination)
   `Defect`, `defectsOf`  the decidable defect predicates of the known findings, see `findings_witnessed`
 
 WHAT IS PROVED
   full strength      remote_untouched (clause 1), commit_fail_reported ("the failure is reported"),
-                     commit_changes_only_remote
+                     commit_changes_only_remote, commit_order_irrelevant (the Go map iteration order never matters:
+                     every reachable state, also outside the class)
   DISPROVED          commit_equiv (clause 2 for the code as it is): `commit_equiv_false`; one evaluated witness per
                      finding class KF-C06-1 … KF-C06-12 in `findings_witnessed` (known_findings.d/C06.json)
-  `_partial`         commit_equiv_partial, commit_order_irrelevant_partial, commit_retry_partial,
-                     second_commit_unchanged_partial — on the class `writeClass` ∧ `allDirectOk`, i.e. under the negation
-                     of every defect predicate (`class_has_no_defect` is checked by the campaign, not proved)
+  `_partial`         commit_equiv_partial, commit_retry_partial, second_commit_unchanged_partial — on the class
+                     `writeClass` ∧ `allDirectOk`, i.e. under the negation of every defect predicate (that the class
+                     contains no defect event is checked by the campaign `genclean`, not proved);
+                     commit_order_irrelevant_partial (on the class every order SUCCEEDS with the direct tree)
 
-NOT PROVED (full-strength statements kept here):
-  commit_order_irrelevant :  ∀ s rm rm' rma rma' mk mk' wr wr', rm.Perm rm' → rma.Perm rma' → mk.Perm mk' → wr.Perm wr' →
-      (commitWith rm rma mk wr none s).2.2 = (commitWith rm' rma' mk' wr' none s).2.2 ∧
-      ((commitWith rm rma mk wr none s).2.2 = true →
-         abs (commitWith rm rma mk wr none s).1.remote = abs (commitWith rm' rma' mk' wr' none s).1.remote)
-    (for EVERY state, also outside the class).  Missing: pairwise commutation of the replay steps of the four loops
-    including their failure cases (a Remove/RemoveAll/MkdirAll/Writer step against each other on `FS.State`).
-    It is exercised on every run: the Go side iterates its maps in random order, the model in the order drawn from
-    the `order <seed>` argument, and verdict and tree after a successful Commit are compared.
-  commit_equiv_partial for CopyFile to absent destinations and for removes (DESIGN 3 C06): not attempted; removes
-    are outside any class in which the statement holds (KF-C06-1/2/6).
+NOT PROVED / outside the class:
+  Copy and CopyDirectory (directory sources are KF-C06-4; file sources through `Copy` were not carried), and all
+    removes: there is no class with removes in which clause 2 holds (KF-C06-1/2/6).
+  A failing Commit leaves a remote that depends on the iteration order (the loops stop at the failing call):
+    commit_order_irrelevant speaks about unfailed Commits, commit_retry_partial about what a later Commit makes of it.
 -/
 import Goat.Proofs.CacheWitness
 
@@ -94,7 +91,48 @@ example :
     (commit (some 7) (run (State.new Node.empty) [(.cache, .writeFile [97] [1]), (.cache, .writeFile [98] [2])])).2
       = (4, true) := by decide
 
-/-! ### 3. Everything reaches the remote after Commit — FALSE for the code, true on a class -/
+/-! ### 3. The Go map iteration order does not matter -/
+
+/-- (ii) ORDER IRRELEVANCE, full strength.  In every reachable state — after any history of calls and Commits
+(any failure positions) on any well-formed initial remote, inside or outside the defect classes — a Commit without
+injected failure answers the same verdict whatever permutation of each of the four journals it replays, and when
+it succeeds the remote tree is the same.  (The four loops are folds of pairwise commuting steps on abstract trees:
+`Goat/Proofs/CacheOrder.lean`.) -/
+theorem commit_order_irrelevant (r0 : Node) (hr : Inv r0) (hist : List HOp)
+    (rm rma mk wr rm' rma' mk' wr' : List Bytes)
+    (hrm : rm.Perm rm') (hrma : rma.Perm rma') (hmk : mk.Perm mk') (hwr : wr.Perm wr') :
+    (commitWith rm rma mk wr none ((Sim.new r0).run hist).cache).2.2
+        = (commitWith rm' rma' mk' wr' none ((Sim.new r0).run hist).cache).2.2
+    ∧ ((commitWith rm rma mk wr none ((Sim.new r0).run hist).cache).2.2 = true →
+        abs (commitWith rm rma mk wr none ((Sim.new r0).run hist).cache).1.remote
+          = abs (commitWith rm' rma' mk' wr' none ((Sim.new r0).run hist).cache).1.remote) :=
+  commit_order_irrelevant_winv _ (sim_run_winv (Sim.new r0) (winv_new r0 hr) hist) rm rma mk wr rm' rma' mk' wr'
+    hrm hrma hmk hwr
+
+/-- the same for any state whose two trees are well formed -/
+theorem commit_order_irrelevant_state (s : Cache.State) (W : WInv s) (rm rma mk wr rm' rma' mk' wr' : List Bytes)
+    (hrm : rm.Perm rm') (hrma : rma.Perm rma') (hmk : mk.Perm mk') (hwr : wr.Perm wr') :
+    (commitWith rm rma mk wr none s).2.2 = (commitWith rm' rma' mk' wr' none s).2.2
+    ∧ ((commitWith rm rma mk wr none s).2.2 = true →
+        abs (commitWith rm rma mk wr none s).1.remote = abs (commitWith rm' rma' mk' wr' none s).1.remote) :=
+  commit_order_irrelevant_winv s W rm rma mk wr rm' rma' mk' wr' hrm hrma hmk hwr
+
+-- a state outside the class (nested recursive removes, a removed and rewritten file): both orders, same tree
+example :
+    [[97], [97, 47, 98]].Perm [[97, 47, 98], [97]] ∧ [[99], [100, 47, 101]].Perm [[100, 47, 101], [99]] := by
+  exact ⟨List.Perm.swap _ _ _, List.Perm.swap _ _ _⟩
+example :
+    (commitWith [[99]] [[97], [97, 47, 98]] [] [[99], [100, 47, 101]] none
+      ((Sim.new (Witness.mkRemote [([97, 47, 98, 47, 120], some [1]), ([99], some [2])] Node.empty)).run
+        [.call .cache (.removeAll [97, 47, 98]), .call .cache (.removeAll [97]), .call .cache (.remove [99]),
+         .call .cache (.writeFile [99] [3]), .call .cache (.writeFile [100, 47, 101] [4])]).cache).2.2 = true
+    ∧ (commitWith [[99]] [[97, 47, 98], [97]] [] [[100, 47, 101], [99]] none
+      ((Sim.new (Witness.mkRemote [([97, 47, 98, 47, 120], some [1]), ([99], some [2])] Node.empty)).run
+        [.call .cache (.removeAll [97, 47, 98]), .call .cache (.removeAll [97]), .call .cache (.remove [99]),
+         .call .cache (.writeFile [99] [3]), .call .cache (.writeFile [100, 47, 101] [4])]).cache).2.2 = true := by
+  decide
+
+/-! ### 4. Everything reaches the remote after Commit — FALSE for the code, true on a class -/
 
 /-- THE FULL STATEMENT of the second sentence: for every initial remote tree and every history through ok handles,
 Commit (no injected failure) succeeds and leaves exactly the tree obtained by applying the same successful
@@ -158,7 +196,7 @@ theorem findings_witnessed :
     decide
 
 /-- `commit_equiv` ON THE CLASS (the same conclusion as the full statement): histories of WriteFile / Writer /
-MkdirAll through the cache or ok child views, any spellings, any length, on any well-formed initial remote, in
+MkdirAll / CopyFile through the cache or ok child views, any spellings, any length, on any well-formed initial remote, in
 which every operation also succeeds when applied directly.  Every call succeeds through the cache, Commit
 succeeds, and the remote is exactly the direct tree. -/
 theorem commit_equiv_partial (r0 : Node) (hr : Inv r0) (ops : List (Handle × Op))
@@ -173,19 +211,21 @@ theorem commit_equiv_partial (r0 : Node) (hr : Inv r0) (ops : List (Handle × Op
   have hc := commit_class V J _ _ _ _ (fun _ => Iff.rfl) (fun _ => Iff.rfl) (fun _ => Iff.rfl) (fun _ => Iff.rfl) none
   exact ⟨hres, hc.2.2.2 rfl, hc.2.2.1 (hc.2.2.2 rfl)⟩
 
--- a history of the class: two views, odd spellings, an overwrite, directories; the remote holds file a/x
+-- a history of the class: two views, odd spellings, an overwrite, directories, file copies from the remote and
+-- from the buffer; the remote holds file a/x
 example :
     ([(Handle.cache, Op.writeFile [47, 97, 47, 46, 47, 121] [1]), (.sub [97, 47], .writer [122, 47, 46, 46, 47, 121] [[2], [3]]),
-      (.sub [98, 47, 99, 47], .mkdirAll [100]), (.cache, .mkdirAll [97]), (.sub [98, 47], .writeFile [99, 47, 101] [])]).all
+      (.sub [98, 47, 99, 47], .mkdirAll [100]), (.cache, .mkdirAll [97]), (.sub [98, 47], .writeFile [99, 47, 101] []),
+      (.cache, .copyFile [97, 47, 120] [102, 47, 103]), (.sub [97, 47], .copyFile [121] [46, 47, 122])]).all
         writeClass = true
     ∧ allDirectOk (Witness.mkRemote [([97, 47, 120], some [9])] Node.empty)
         [(Handle.cache, Op.writeFile [47, 97, 47, 46, 47, 121] [1]), (.sub [97, 47], .writer [122, 47, 46, 46, 47, 121] [[2], [3]]),
-         (.sub [98, 47, 99, 47], .mkdirAll [100]), (.cache, .mkdirAll [97]), (.sub [98, 47], .writeFile [99, 47, 101] [])] = true := by
+         (.sub [98, 47, 99, 47], .mkdirAll [100]), (.cache, .mkdirAll [97]), (.sub [98, 47], .writeFile [99, 47, 101] []),
+         (.cache, .copyFile [97, 47, 120] [102, 47, 103]), (.sub [97, 47], .copyFile [121] [46, 47, 122])] = true := by
   decide
 example : Inv (Witness.mkRemote [([97, 47, 120], some [9])] Node.empty) := Witness.inv_mkRemote _ _ inv_empty
 
-/-- ORDER IRRELEVANCE on the class: whatever order the four Go maps are iterated in, Commit succeeds with the
-same remote tree (the direct tree).  Full-strength statement (every state): see the header, not proved. -/
+/-- On the class every iteration order SUCCEEDS, with the direct tree. -/
 theorem commit_order_irrelevant_partial (r0 : Node) (hr : Inv r0) (ops : List (Handle × Op))
     (hclass : ops.all writeClass = true) (hdirect : allDirectOk r0 ops = true)
     (rm rma mk wr : List Bytes)
